@@ -1,0 +1,12 @@
+//go:build verif
+
+package psi
+
+// VerifDescriptorData exposes the body bytes of a PMT descriptor to the
+// verification harness in /verif (build tag "verif" only; read-only).
+func VerifDescriptorData(d PmtDescriptor) []byte {
+	if pd, ok := d.(*pmtDescriptor); ok {
+		return pd.data
+	}
+	return nil
+}
